@@ -75,6 +75,39 @@ pub fn check_position(ctx: &mut Ctx, s: &Step, full_sweep_one_in: u64) -> Result
     if l != legal.len() {
         ctx.fail("movegen:len", format!("fresh MoveGen::len() = {} but {} legal moves", l, legal.len()), s.case())?;
     }
+    // 2b. the other ways of iterating the generator (a type may specialise any Iterator method)
+    {
+        let n = legal.len();
+        let cnt = MoveGen::new_legal(b).count();
+        let folded = MoveGen::new_legal(b).fold(0usize, |a, _| a + 1);
+        let mut via_for: Vec<Mv> = vec![];
+        for m in MoveGen::new_legal(b) {
+            via_for.push(bridge::rmv(m));
+        }
+        via_for.sort();
+        let mut via_by_ref: Vec<Mv> = vec![];
+        let mut mg = MoveGen::new_legal(b);
+        for m in &mut mg {
+            via_by_ref.push(bridge::rmv(m));
+        }
+        via_by_ref.sort();
+        let last_ok = match MoveGen::new_legal(b).last() {
+            Some(m) => legal.contains(&bridge::rmv(m)),
+            None => n == 0,
+        };
+        let mut it = MoveGen::new_legal(b);
+        let k = (pfp % (n as u64 + 1)) as usize;
+        let nth = it.nth(k).map(bridge::rmv);
+        let rest = it.count();
+        let nth_ok = if k < n { nth.map_or(false, |m| legal.contains(&m)) && rest == n - k - 1 } else { nth.is_none() && rest == 0 };
+        if cnt != n || folded != n || via_for != legal || via_by_ref != legal || !last_ok || !nth_ok || mg.next().is_some() {
+            ctx.fail(
+                "movegen:iterator-adaptors",
+                format!("{} legal moves, but count() = {}, fold = {}, for-loop yields {}, by-ref loop yields {}, last() legal = {}, nth({}) consistent = {}", n, cnt, folded, via_for.len(), via_by_ref.len(), last_ok, k, nth_ok),
+                s.case(),
+            )?;
+        }
+    }
     // 3. deprecated array API
     if legal.len() <= 256 {
         let mut arr = [ChessMove::new(Square::A1, Square::A1, None); 256];
